@@ -715,7 +715,8 @@ class ComputeGraph(MultiDiGraph):
 
         # fill non-zero J0 entries
         for (i_r, j_c), d_expr in sorted(J0_entries.items()):
-            d_str_code = self._expr_to_jac_str(d_expr, sym_to_y_idx, {})
+            # (an instantaneous entry may contain delayed factors, e.g. d/dw [past(x, tau) * w])
+            d_str_code = self._expr_to_jac_str(d_expr, sym_to_y_idx, past_sym_to_str)
             if d_str_code is None:
                 code_gen.add_code_line(
                     f"# WARNING: could not differentiate J0[{i_r},{j_c}] analytically — entry left as 0")
